@@ -65,7 +65,7 @@ func stringify(v *Val, inProcess util.PtrSet) string {
 		for i, _ := range o.V {
 			ord[i] = i
 		}
-		sort.SliceStable(ord, func(i, j int) bool { return fs[i].Name < fs[j].Name })
+		sort.SliceStable(ord, func(i, j int) bool { return fs[ord[i]].Name < fs[ord[j]].Name })
 		xs := make([]string, len(o.V))
 		for j, i := range ord {
 			xs[j] = fmt.Sprintf("%s: %s", fs[i].Name, stringify(o.V[i], inProcess))
